@@ -979,14 +979,22 @@ impl MdkSqliteStorage {
             )
             .map_err(|e| Error::Database(e.to_string()))?;
 
-            conn.execute(
-                "DELETE FROM groups WHERE mls_group_id = ?",
-                [group_id_bytes],
-            )
-            .map_err(|e| Error::Database(e.to_string()))?;
+            // The `groups` row is the parent (ON DELETE CASCADE) of the group's stored
+            // messages, relays, exporter secrets and snapshots. Deleting it would destroy
+            // the messages, which are not part of the snapshot. When the snapshot holds a
+            // `groups` row it is restored in place below (upsert), so only delete the row
+            // when the group did not exist at snapshot time.
+            let snapshot_has_group_row = snapshot_rows.iter().any(|(t, _, _)| t == "groups");
+            if !snapshot_has_group_row {
+                conn.execute(
+                    "DELETE FROM groups WHERE mls_group_id = ?",
+                    [group_id_bytes],
+                )
+                .map_err(|e| Error::Database(e.to_string()))?;
+            }
 
-            // Note: The CASCADE will have deleted the snapshot rows, but we already
-            // have the data in memory (snapshot_rows).
+            // Note: a CASCADE (if the row was deleted) removes the snapshot rows, but we
+            // already have the data in memory (snapshot_rows).
 
             // 3. Restore from in-memory snapshot data
             // IMPORTANT: We must restore "groups" first because group_relays and
@@ -1032,7 +1040,21 @@ impl MdkSqliteStorage {
                     "INSERT INTO groups (mls_group_id, nostr_group_id, name, description, admin_pubkeys,
                                         last_message_id, last_message_at, last_message_processed_at, epoch, state,
                                         image_hash, image_key, image_nonce, last_self_update_at)
-                     VALUES (?, ?, ?, ?, ?, ?, ?, ?, ?, ?, ?, ?, ?, ?)",
+                     VALUES (?, ?, ?, ?, ?, ?, ?, ?, ?, ?, ?, ?, ?, ?)
+                     ON CONFLICT(mls_group_id) DO UPDATE SET
+                        nostr_group_id = excluded.nostr_group_id,
+                        name = excluded.name,
+                        description = excluded.description,
+                        admin_pubkeys = excluded.admin_pubkeys,
+                        last_message_id = excluded.last_message_id,
+                        last_message_at = excluded.last_message_at,
+                        last_message_processed_at = excluded.last_message_processed_at,
+                        epoch = excluded.epoch,
+                        state = excluded.state,
+                        image_hash = excluded.image_hash,
+                        image_key = excluded.image_key,
+                        image_nonce = excluded.image_nonce,
+                        last_self_update_at = excluded.last_self_update_at",
                     rusqlite::params![
                         mls_group_id,
                         nostr_group_id,
@@ -1134,11 +1156,12 @@ impl MdkSqliteStorage {
             )
             .map_err(|e| Error::Database(e.to_string()))?;
 
-            // 5. Re-insert other snapshots that were deleted by CASCADE
+            // 5. Re-insert other snapshots that were deleted by CASCADE (they are still
+            // in place when the `groups` row was restored without deleting it).
             // This preserves multiple snapshots when rolling back to one of them.
             for (snap_name, table_name, row_key, row_data, created_at) in &other_snapshots {
                 conn.execute(
-                    "INSERT INTO group_state_snapshots (snapshot_name, group_id, table_name, row_key, row_data, created_at)
+                    "INSERT OR REPLACE INTO group_state_snapshots (snapshot_name, group_id, table_name, row_key, row_data, created_at)
                      VALUES (?, ?, ?, ?, ?, ?)",
                     rusqlite::params![snap_name, group_id_bytes, table_name, row_key, row_data, created_at],
                 )
